@@ -544,23 +544,21 @@ fn run_case(case: &Val) -> Val {
             let f = crate::rtc::RtcFilter::from_paths(&paths);
             run_process_rtc(case, None, Some(&f))
         }
-        // [10, ctx, router_id, cid, attrs]: the receive path for one reach UPDATE.
-        // run_select skips the message when is_as_loop (that `continue` is glue
-        // replicated here); otherwise PeerSession::rx_update runs for real and the
+        // [10, ctx, router_id, cid, attrs]: the receive path for one reach UPDATE, through the
+        // real PeerSession::rx_msg on an Established session (since 76a892d the AS-loop test
+        // sits in rx_msg's route extraction, the message still goes through the FSM); the
         // Loc-RIB is read back.
         10 => {
             let ctx = ctx_of(case.at(1));
             let rid = case.at(2).u32();
             let cid = cid_of(case.at(3));
             let attrs = attrs_of(case.at(4));
-            if is_as_loop(&attrs, ctx.local_asn, ctx.confederation_id) {
-                return Val::L(vec![]);
-            }
             let rt = tokio::runtime::Builder::new_current_thread()
                 .enable_all()
                 .build()
                 .unwrap();
             rt.block_on(async move {
+                use crate::fsm::Input;
                 let tables: TableHandle = Arc::new(crate::table_manager::TableManager::new(1));
                 let fsm = crate::fsm::PeerFsm::new(rid, ctx.local_asn, vec![], 90, 0, FnvHashMap::default());
                 let conn_arbiter = Arc::new(std::sync::Mutex::new(ConnArbiter::new(fsm)));
@@ -575,13 +573,39 @@ fn run_case(case: &Val) -> Val {
                     rtc_eor_timer: None,
                 }));
                 let remote: IpAddr = "10.0.0.2".parse().unwrap();
-                let mut s = PeerSession::new_for_test(remote, context, tables.clone());
+                let mut s = PeerSession::new_for_test(remote, context.clone(), tables.clone());
                 let role = ctx.role;
                 let rasn = if matches!(role, PeerRole::Ibgp | PeerRole::IbgpRrClient) {
                     ctx.local_asn
                 } else {
                     65002
                 };
+                // an arbiter whose FSM has the case's router id, brought to Established
+                let arbiter = Arc::new(std::sync::Mutex::new(ConnArbiter::new(crate::fsm::PeerFsm::new(
+                    rid,
+                    ctx.local_asn,
+                    vec![],
+                    90,
+                    0,
+                    FnvHashMap::default(),
+                ))));
+                context.lock().unwrap().conn_arbiter = Arc::clone(&arbiter);
+                s.conn_arbiter = Arc::clone(&arbiter);
+                {
+                    let mut a = arbiter.lock().unwrap();
+                    let _ = a.process(s.role, Input::Connected(false));
+                    let _ = a.process(
+                        s.role,
+                        Input::MessageReceived(bgp::Message::Open(bgp::Open {
+                            as_number: rasn,
+                            router_id: 0x0a00_0002,
+                            holdtime: bgp::HoldTime::new(90).unwrap(),
+                            capability: vec![],
+                        })),
+                    );
+                    let _ = a.process(s.role, Input::MessageReceived(bgp::Message::Keepalive));
+                    assert!(a.state(s.role) == crate::fsm::State::Established, "verif: session not Established");
+                }
                 s.source.insert(
                     Family::IPV4,
                     Arc::new(table::Source::new(
@@ -596,13 +620,19 @@ fn run_case(case: &Val) -> Val {
                 s.export_ctx = ctx;
                 s.local_router_id = Ipv4Addr::from(rid);
                 s.cluster_id = cid;
-                let reach = Some(bgp::ReachNlri {
+                let (tx, _rx) = mpsc::unbounded_channel();
+                let (bfd_tx, _bfd_rx) = mpsc::unbounded_channel();
+                let global: GlobalHandle = Arc::new(tokio::sync::RwLock::new(Global::new(tx, bfd_tx)));
+                let msg = bgp::Message::Update(bgp::Update::Reach {
                     family: Family::IPV4,
                     entries: vec![packet::PathNlri::new("10.9.0.0/24".parse().unwrap())],
                     nexthop: Some(bgp::Nexthop::V4(Ipv4Addr::new(10, 0, 0, 2))),
+                    attr: attrs,
                 });
-                let exceeded = s.rx_update(reach, None, attrs, 0u32).await;
-                assert!(!exceeded);
+                let la: SocketAddr = "127.0.0.1:179".parse().unwrap();
+                let ra: SocketAddr = "10.0.0.2:40000".parse().unwrap();
+                let step = s.rx_msg(&global, la, ra, msg).await;
+                assert!(matches!(step, Step::Continue), "verif: rx_msg ended the session");
                 let changes = tables.collect_loc_rib_paths(Family::IPV4);
                 match changes.first().and_then(|c| c.current_paths.first()) {
                     None => Val::L(vec![]),
@@ -660,6 +690,69 @@ fn run_case(case: &Val) -> Val {
             }
             let ops2 = std::mem::take(&mut sink.ops);
             Val::L(vec![norm(ops1), norm(ops2)])
+        }
+        // [15, [[local_pref, filtered, nexthop_invalid]..]]: one destination, every path from the
+        // same peer (distinct add-path ids, distinct LOCAL_PREF so that the order is decided),
+        // then the real Table::restale_llgr; observation: the change stream, path ids renamed to
+        // the 1-based position of the path in the case
+        15 => {
+            let specs = case.at(1).list();
+            let mut t = table::Table::new(0);
+            let net: packet::Nlri = "10.9.0.0/24".parse().unwrap();
+            let peer: IpAddr = "10.0.0.2".parse().unwrap();
+            let src = Arc::new(table::Source::new(
+                peer,
+                IpAddr::V4(Ipv4Addr::new(127, 0, 0, 1)),
+                65002,
+                65001,
+                Ipv4Addr::new(10, 0, 0, 2),
+                PeerRole::Ebgp,
+            ));
+            for (k, sp) in specs.iter().enumerate() {
+                let attrs = Arc::new(vec![
+                    packet::Attribute::new_with_value(packet::Attribute::ORIGIN, 0).unwrap(),
+                    packet::Attribute::new_with_value(packet::Attribute::LOCAL_PREF, sp.at(0).u32()).unwrap(),
+                ]);
+                let _ = t.insert(
+                    src.clone(),
+                    Family::IPV4,
+                    net.clone(),
+                    (k + 1) as u32,
+                    Some(bgp::Nexthop::V4(Ipv4Addr::new(10, 0, 0, 9))),
+                    attrs.clone(),
+                    Some(attrs),
+                    sp.at(1).bool(),
+                    sp.at(2).bool(),
+                    None,
+                    0,
+                );
+            }
+            let rename = |p: &table::Path| -> Val {
+                let lp = p
+                    .attr
+                    .iter()
+                    .find(|a| a.code() == packet::Attribute::LOCAL_PREF)
+                    .and_then(|a| a.value())
+                    .unwrap();
+                Val::us(1 + specs.iter().position(|sp| sp.at(0).u32() == lp).unwrap())
+            };
+            let changes = t.restale_llgr(peer, Family::IPV4);
+            Val::L(
+                changes
+                    .iter()
+                    .map(|c| {
+                        let rep = c.replaced_path_id.map(|pid| {
+                            rename(c.current_paths.iter().find(|p| p.local_path_id == pid).unwrap())
+                        });
+                        Val::L(vec![
+                            Val::b(c.best_changed),
+                            Val::b(c.any_changed),
+                            Val::opt(rep),
+                            Val::L(c.current_paths.iter().map(rename).collect()),
+                        ])
+                    })
+                    .collect(),
+            )
         }
         t => panic!("verif: unknown case tag {}", t),
     }
